@@ -83,11 +83,21 @@ class Prop(BaseProp):
         res = CaseResult()
         mbre = rng.choice(list(FAMILIES))
 
+        others = [k for k in FAMILIES if k and k != mbre and not ({k, mbre} <= {"^_[a-z]+_", "^_[a-zA-Z]*_"})
+                  and not ({k, mbre} <= {"_in$", "(_in|_out)$"}) and "PFX" not in (k, mbre)]
+        fre = rng.choice(others) if (others and rng.random() < 0.5) else ""
+        mre = rng.choice(others) if (others and rng.random() < 0.5) else ""
+
         def mkparam(r, uid, j, kind):
             core = f"pN{uid}Z{j}"
             if kind != "member" or r.random() < 0.2:
                 return core, core
-            return FAMILIES[mbre](r, core), core
+            # the inner decoration is one the function/macro pattern would strip; only the member pattern may act
+            inner = core
+            dec = r.choice([fre, mre, ""])
+            if dec:
+                inner = FAMILIES[dec](r, core)
+            return FAMILIES[mbre](r, inner), inner
         b = Builder(rng, p_doc=0.5, max_depth=4, max_items=4, mkparam=mkparam, compound_generic=False,
                     kinds=["cpp_class", "cpp_class", "cpp_class", "function", "plain", "set", "block"])
         nr = self.NR[self.tier]
@@ -106,7 +116,24 @@ class Prop(BaseProp):
         res.nontrivial = any(e.attrs or e.methods or e.ctors for e in classes)
         res.see("mode", mode)
         res.see("member_strip", mbre)
-        settings = runner.make_settings(input={"member_parameter_name_strip_regex": mbre})
+        settings = runner.make_settings(input={"member_parameter_name_strip_regex": mbre,
+                                               "function_parameter_name_strip_regex": fre,
+                                               "macro_parameter_name_strip_regex": mre})
+        res.see("function_macro_patterns_set", bool(fre or mre))
+        # hand-written ':type <p>:' lines in some member doccomments: the remaining parameters still pair position-wise
+        handwritten = {}
+        for it in mod.walk():
+            if it.kind in ("cpp_member", "cpp_constructor") and it.doc is not None and rng.random() < 0.35:
+                k = min(len(it.gt["types"]), len(it.gt["params"]))
+                if k >= 2:
+                    chosen = [i for i in range(k) if rng.random() < 0.4] or [0]
+                    for i in chosen:
+                        it.doc.append(f"{{L{it.uid}.{len(it.doc)}}}")
+                        it.doc[-1] = f":type {it.gt['params'][i]}: handwritten {it.doc[-1]}"
+                    handwritten[it.uid] = set(chosen)
+        if handwritten:
+            text = render(mod, Layout(rng, comments=0.1, wild=0.2, case="random"))
+            res.count("members_with_handwritten_type_lines", len(handwritten))
         o, _ = runner.document_text(text, settings)
         wit = {"text": text, "member_strip": mbre}
         if not o.ok:
@@ -162,14 +189,18 @@ class Prop(BaseProp):
                                 f"{m.item.impl.cmd}", None)
                 # type pairing, position-wise
                 tl = [l.strip() for l in c.text_lines()]
+                hw = handwritten.get(m.uid, set())
                 for i in range(min(len(m.types), len(m.params))):
+                    if i in hw:
+                        continue      # the author documented this one; only the others are asserted
                     want = f":type {m.params[i]}: {m.types[i]}"
                     res.count("type_fields_checked")
                     if want not in tl:
                         got = [l for l in tl if l.startswith(":type ")]
-                        res.violate("method-type-pairing", f"{m.name}: missing {want!r}; fields {got}", None)
-                extra = [l for l in tl if l.startswith(":type ")]
-                if len(extra) != min(len(m.types), len(m.params)):
+                        cls_ = "method-type-pairing" + (":with-handwritten-type-lines" if hw else "")
+                        res.violate(cls_, f"{m.name}: missing {want!r}; fields {got}", None)
+                extra = [l for l in tl if l.startswith(":type ") and "handwritten" not in l]
+                if len(extra) != min(len(m.types), len(m.params)) - len(hw):
                     res.violate("method-type-count", f"{m.name}: {extra}", None)
             for a in e.attrs:
                 c = sub.get(a.uid)
